@@ -293,10 +293,11 @@ fn compare(case: &Case, dbg: &Value, walked: &Walked, r: &mut CaseResult) {
             r.findings.push(Finding { kind: "const-value", class: if k.float { "float-vs-M6".into() } else { "int-vs-M6".into() }, detail: json!({"message": format!("const {}: debug info value differs from the reference evaluator", k.name), "expected": exp, "debug_info": frag}) });
         }
     }
-    if !case.consts.is_empty() { r.features.insert("consts"); }
+    let user_consts = case.consts.iter().any(|k| k.name.starts_with('K'));
+    if user_consts { r.features.insert("consts"); }
     if sizes_vary { r.features.insert("sizes-vary"); }
     if case.scripts.len() > 1 { r.features.insert("multi-script"); }
-    r.nontrivial = sizes_vary || !case.consts.is_empty() || case.scripts.iter().any(|s| !s.locals.is_empty() || s.events.iter().any(|e| matches!(e, Ev::Label { .. })));
+    r.nontrivial = sizes_vary || user_consts || case.scripts.iter().any(|s| !s.locals.is_empty() || s.events.iter().any(|e| matches!(e, Ev::Label { .. })));
 }
 
 fn check_script(case: &Case, sm: &ScriptM, ds: &Value, fs: &FScript, r: &mut CaseResult) {
@@ -621,17 +622,23 @@ impl<'c, 'p> Inst<'c, 'p> {
     }
     fn label(&mut self) -> Node { self.n_label += 1; Node::Label(format!("{}L{}", self.prefix, self.n_label)) }
     fn slot(&mut self, out: &mut Vec<Node>) {
-        let n_alts = if self.time32() { 10 } else { 8 };
-        match self.pick(n_alts) {
+        // basic contents cost 1 deviation, combined contents 2
+        let basic = if self.frozen { 0 } else { self.ch.pick_w(5, 1) };
+        match basic {
+            1 => return out.push(self.label()),
+            2 => { out.push(self.label()); out.push(self.label()); return; },
+            3 => return out.push(Node::TRel(5)),
+            4 => return out.push(Node::TAbs(10)),
+            _ => {},
+        }
+        let n_combo = if self.time32() { 6 } else { 4 };
+        let combo = if self.frozen { 0 } else { self.ch.pick_w(n_combo, 2) };
+        match combo {
             0 => {},
-            1 => out.push(self.label()),
-            2 => { out.push(self.label()); out.push(self.label()); },
-            3 => out.push(Node::TRel(5)),
-            4 => out.push(Node::TAbs(10)),
-            5 => { out.push(self.label()); out.push(Node::TRel(5)); },
-            6 => { out.push(Node::TRel(3)); out.push(self.label()); },
-            7 => { out.push(self.label()); out.push(Node::TAbs(20)); out.push(self.label()); },
-            8 => out.push(Node::TRel(2147483647)),
+            1 => { out.push(self.label()); out.push(Node::TRel(5)); },
+            2 => { out.push(Node::TRel(3)); out.push(self.label()); },
+            3 => { out.push(self.label()); out.push(Node::TAbs(20)); out.push(self.label()); },
+            4 => out.push(Node::TRel(2147483647)),
             _ => { out.push(self.label()); out.push(Node::TRel(2147483647)); out.push(self.label()); },
         }
     }
@@ -652,8 +659,8 @@ impl<'c, 'p> Inst<'c, 'p> {
             let s = if furi { format!("|{}", &TEXT_LETTERS[..len - 1]) } else { TEXT_LETTERS[..len].to_string() };
             return Node::Stmt { text: text_src(self.lang, &s, k as usize), dword: None, single: true };
         }
-        let alt = self.pick(3);
-        Node::Stmt { text: marker_src(self.lang, id, (k as usize + alt) % 3), dword: Some(id), single: true }
+        let alt = self.pick(2);
+        Node::Stmt { text: marker_src(self.lang, id, (k as usize + 2 * alt) % 3), dword: Some(id), single: true }
     }
     fn decl(&mut self) -> Node {
         let float = self.pick(2) == 1;
@@ -957,13 +964,13 @@ fn gen_const_case(ch: &mut Chooser, tool: Tool, depth: u32) -> Option<Case> {
     let mut defs: Vec<(bool, CE)> = vec![];
     for i in 0..n { let e = gen_ce(ch, types[i], depth, i, &types); defs.push((types[i], e)); }
     let order: Vec<usize> = match n { 1 => vec![0], 2 => if ch.pick(2) == 0 { vec![0, 1] } else { vec![1, 0] }, _ => PERMS3[ch.pick(6)].to_vec() };
-    // placement: all at file level | the last-declared one inside the script body
+    // placement: all at file level | K0 (which no other const refers to) inside the script body
     let local_last = ch.pick(2) == 1;
     let decl = |i: usize| format!("const {} {} = {};", if types[i] { "float" } else { "int" }, names[i], ce_render(&defs[i].1, &names));
     let mut file_level = String::new();
     let mut local_consts = vec![];
     for (pos, &i) in order.iter().enumerate() {
-        if local_last && pos == order.len() - 1 { local_consts.push(decl(i)); } else { file_level += &decl(i); file_level.push('\n'); }
+        if local_last && i == 0 { local_consts.push(decl(i)); } else { file_level += &decl(i); file_level.push('\n'); }
     }
     let mut consts = vec![];
     for i in 0..n {
@@ -1017,8 +1024,11 @@ fn enumerate_cases(thorough: bool) -> (Vec<Case>, GenStats) {
                 if main.diff() { for s in SK_DIFF { jobs.push((main, s.to_string(), None, bound_regs)); } }
                 if tool.kind == Kind::Ecl { for s in SK_FLAT { jobs.push((Lang::Timeline, s.to_string(), None, bound_regs)); } }
             },
-            Kind::Anm | Kind::Std => for s in SK_JUMPS { jobs.push((main, s.to_string(), None, bound_regs + 1)); },
-            Kind::Msg => for s in SK_FLAT { for len0 in 0..10 { jobs.push((main, s.to_string(), Some(len0), bound_regs)); } },
+            Kind::Anm | Kind::Std => for s in SK_JUMPS { jobs.push((main, s.to_string(), None, bound_regs)); },
+            // full product over the first text's length 0..=9 for the two smallest skeletons (all, when thorough)
+            Kind::Msg => for (si, s) in SK_FLAT.iter().enumerate() {
+                if si == 0 || si == 2 || thorough { for len0 in 0..10 { jobs.push((main, s.to_string(), Some(len0), bound_regs)); } } else { jobs.push((main, s.to_string(), None, bound_regs)); }
+            },
             _ => {},
         }
         for (lang, sk_text, len0, bound) in jobs {
@@ -1030,8 +1040,10 @@ fn enumerate_cases(thorough: bool) -> (Vec<Case>, GenStats) {
             if st.capped { stats.capped = true; }
         }
         // (d) consts
-        let (cb, cd) = if thorough { (4, 2) } else { (3, 2) };
-        let st = explore_dfs(cb, scale * 4, &|ch| gen_const_case(ch, tool, cd), &mut |_, c| {
+        // quick: the full const space on one format (ANM th12), a smaller bound on the others (const evaluation is format-independent)
+        let full = matches!((tool.kind, tool.game), (Kind::Anm, Game::Th12));
+        let (cb, cd) = if thorough { (4, 2) } else if full { (3, 2) } else { (2, 2) };
+        let st = explore_dfs(cb, scale * 8, &|ch| gen_const_case(ch, tool, cd), &mut |_, c| {
             stats.generated += 1;
             match c { Some(c) => if seen.insert((c.tool, c.src.clone())) { cases.push(c); }, None => stats.undefined_consts += 1 }
         });
@@ -1084,6 +1096,12 @@ pub fn run(tier: &str) -> Report {
     if stats.undefined_consts > 0 { rep.discarded.insert("generator:const-set-undefined-by-M6(division by zero)".into(), stats.undefined_consts); }
     if std::env::var("VERIF_C18_DUMP").is_ok() {
         for c in cases.iter().step_by((cases.len() / 40).max(1)) { println!("---- {} ----\n{}", c.family, c.src); }
+    }
+    if std::env::var("VERIF_C18_COUNT").is_ok() {
+        let mut m: BTreeMap<String, u64> = BTreeMap::new();
+        for c in &cases { *m.entry(format!("{} {}", c.tool.name(), c.family.split(':').next().unwrap_or(""))).or_insert(0) += 1; }
+        println!("{:#?} total {} gen-time {:?}", m, cases.len(), rep.start.elapsed());
+        std::process::exit(0);
     }
     let results = par_map(&cases, Some(deadline), |_, c| check_case(c, corrupt));
 
